@@ -30,6 +30,7 @@ Fixpoint repeat_c (c : char) (n : nat) : str := match n with O => [] | S k => c 
 (* get_bv_constant_value: (value, width); None = raises *)
 Definition bv_const_value (e : sexp) : option (Z * Z) :=
   match e with
+  | L (_ :: d :: []) => None                     (* the bare "#b" / "#x": int('', 2) raises *)
   | L (_ :: d :: tl) =>
       if N.eqb d c_b then Some (Z.of_N (bin_val tl), Z.of_nat (length tl))
       else Some (Z.of_N (hex_val tl), (Z.of_nat (length tl) * 4)%Z)
